@@ -691,6 +691,10 @@ def main():
         "real_code": "cobra generate --watch command, dedupLoop, generateInWatchMode, generateImpl, packaging, dsl, all generators, koanf — from the working tree",
         "stubbed": "os, path/filepath, os/exec, sync.Mutex, fsnotify, time.AfterFunc wrapper (naming only), `go` statements (naming + park at birth); clock = testing/synctest bubble",
     }
+    if not check.violations and tot["cases"] >= 20 and tot["final_invalid"] > 0.6 * tot["cases"]:
+        # convergence is vacuous for a session that ends on a package the tool rejects: a tool that rejects (nearly) all of them
+        # has not been shown to converge
+        raise tw.HarnessTrouble("yardl rejected the final package of %d of %d watch sessions (about a fifth end invalid on purpose); nothing was decided" % (tot["final_invalid"], tot["cases"]))
     check.assumptions += ["interleavings are explored at simulated-OS-call / koanf-call / lock granularity; plain-memory races between seams are not",
                           "the last file-system event after the final edit is never dropped (no watcher could converge otherwise)"]
     check.finish()
